@@ -53,6 +53,11 @@ def main():
     if rc != 0:
         meta["checks"]["apply_error"] = o[-300:]
     else:
+        # evidence files describe runs on the unchanged tree: keep them out of reach of seeded runs
+        import shutil
+        import tempfile
+        keep = tempfile.mkdtemp(prefix="evidence_keep_", dir=os.path.join(VERIF, ".cache"))
+        shutil.copytree(os.path.join(VERIF, "evidence"), os.path.join(keep, "evidence"))
         try:
             for c in checks:
                 t = time.time()
@@ -61,6 +66,9 @@ def main():
                 meta["checks"][c] = {"rc": rc, "lines": [l[:300] for l in lines][:4], "wall_s": round(time.time() - t, 1)}
         finally:
             sh("git -C /repo checkout -- . && git -C /repo clean -fdq src codegen")
+            shutil.rmtree(os.path.join(VERIF, "evidence"))
+            shutil.copytree(os.path.join(keep, "evidence"), os.path.join(VERIF, "evidence"))
+            shutil.rmtree(keep)
     meta["detected_by"] = [c for c, r in meta["checks"].items() if isinstance(r, dict) and r.get("rc") == 1]
     meta["check_errors"] = [c for c, r in meta["checks"].items() if isinstance(r, dict) and r.get("rc") not in (0, 1)]
     json.dump(meta, open(os.path.join(out, "meta.json"), "w"), indent=1)
